@@ -25,6 +25,8 @@ const (
 	opSpan
 	opInstallT
 	opProp
+	opSelf // Arg 0 tracer / 1 meter / 2 propagator: install the value the global currently returns
+	opErrH
 )
 
 type Step struct {
@@ -34,6 +36,10 @@ type Step struct {
 	Obs  []int `json:"obs,omitempty"`  // observable instruments for opRegister
 	Same int   `json:"same,omitempty"` // opInst: request again the identity first requested at this step (0: a new one)
 	CB   bool  `json:"cb,omitempty"`   // opInst: pass a creation-time callback (observable kinds)
+	Via  int   `json:"via,omitempty"`  // opMeter / opTracer: 1 = through otel.Meter / otel.Tracer
+	Opt  bool  `json:"opt,omitempty"`  // opMeter / opTracer: with version, schema URL and attribute options
+	Bad  int   `json:"bad,omitempty"`  // opInst: 1-4 a name the SDK rejects, 5 the longest valid name
+	Prov int   `json:"prov,omitempty"` // installs: 1 = a provider value of a non-comparable type
 }
 
 type Storm struct {
@@ -79,7 +85,7 @@ func childMain() {
 		})
 		select {} // another goroutine is already writing the result and exiting
 	}
-	wd := 20
+	wd := 60
 	if sc.Storm != nil && sc.Storm.WatchdogS > 0 {
 		wd = sc.Storm.WatchdogS
 	}
@@ -129,13 +135,17 @@ func runSeq(w *world, steps []Step, res *result) {
 	for j, s := range steps {
 		switch s.Op {
 		case opMeter:
-			w.opMeter(s.Arg)
+			same := -1
+			if s.Same > 0 {
+				same = s.Same - 1 // meter keys start at 0
+			}
+			w.opMeter(s.Arg, same, s.Opt, s.Via)
 		case opInst:
 			var same *inst
 			if s.Same > 0 {
 				same = w.insts[s.Same]
 			}
-			w.opInst(j, s.Arg, s.Kind, same, s.CB)
+			w.opInst(j, s.Arg, s.Kind, same, s.CB, s.Bad)
 		case opRecord:
 			w.opRecord(j, w.insts[s.Arg])
 		case opRegister:
@@ -151,13 +161,19 @@ func runSeq(w *world, steps []Step, res *result) {
 		case opUnregister:
 			w.opUnregister(w.regs[s.Arg])
 		case opInstall:
-			w.opInstall()
+			w.opInstallV(s.Prov)
 		case opTracer:
-			w.opTracer(j)
+			w.opTracer(j, s.Same, s.Opt, s.Via)
 		case opSpan:
 			w.opSpan(j, s.Arg)
 		case opInstallT:
-			w.opInstallT()
+			w.opInstallTV(s.Prov)
+		case opSelf:
+			w.opSelf(s.Arg)
+		case opErrH:
+			if !w.opErrH() {
+				res.Bad = append(res.Bad, "an ErrorHandler obtained before SetErrorHandler does not forward to the handler that was set")
+			}
 		case opProp:
 			if !w.opProp() {
 				res.Bad = append(res.Bad, "a TextMapPropagator obtained before SetTextMapPropagator does not forward to the installed one")
@@ -195,11 +211,11 @@ func runStorm(w *world, c *Storm, res *result) {
 	// ---- before the storm: everything through the not-yet-delegated global API ----
 	var preRegs []*regH
 	for k := 0; k < c.Meters; k++ {
-		w.opMeter(k)
+		w.opMeter(k, -1, root.Bool(), root.Intn(2))
 		p.meters = append(p.meters, k)
 		var mine []*inst
 		mk := func(kind int, same *inst) {
-			x := w.opInst(id(), k, kind, same, root.Chance(1, 2))
+			x := w.opInst(id(), k, kind, same, root.Chance(1, 2), 0)
 			addInst(x)
 			if x != nil {
 				mine = append(mine, x)
@@ -233,7 +249,7 @@ func runStorm(w *world, c *Storm, res *result) {
 	}
 	for i := 0; i < 2; i++ {
 		t := id()
-		w.opTracer(t)
+		w.opTracer(t, 0, root.Bool(), root.Intn(2))
 		p.trs = append(p.trs, t)
 	}
 	// ---- the storm ----
@@ -308,7 +324,7 @@ func runStorm(w *world, c *Storm, res *result) {
 				p.mu.Unlock()
 				if r.Chance(1, 8) {
 					k = c.Meters + r.Intn(4) // a meter first asked for during the storm
-					w.opMeter(k)
+					w.opMeter(k, -1, k%2 == 0, r.Intn(2))
 					p.mu.Lock()
 					p.meters = append(p.meters, k)
 					p.mu.Unlock()
@@ -328,7 +344,7 @@ func runStorm(w *world, c *Storm, res *result) {
 					}
 					p.mu.Unlock()
 				}
-				addInst(w.opInst(id(), k, r.Intn(nKinds), same, r.Chance(1, 3)))
+				addInst(w.opInst(id(), k, r.Intn(nKinds), same, r.Chance(1, 3), 0))
 			}
 		})
 	}
@@ -417,7 +433,13 @@ func runStorm(w *world, c *Storm, res *result) {
 				jitter(r)
 				if r.Chance(1, 3) {
 					t := id()
-					w.opTracer(t)
+					same := 0
+					if r.Chance(1, 4) { // the same tracer identity requested again: both handles must work
+						p.mu.Lock()
+						same = p.trs[r.Intn(len(p.trs))]
+						p.mu.Unlock()
+					}
+					w.opTracer(t, same, r.Bool(), r.Intn(2))
 					p.mu.Lock()
 					p.trs = append(p.trs, t)
 					p.mu.Unlock()
